@@ -492,6 +492,26 @@ class Interp:
     def cur(self):
         return self.framestack[-1]
 
+    def refine(self, v, st):
+        """a value joined under a condition that the current path has decided is its branch:
+        after `if x is None: raise`, x = (A if c else None) is A"""
+        n = 0
+        while isinstance(v.extra, tuple) and len(v.extra) == 4 and v.extra[0] == "phi" and n < 8:
+            _, c, va, vb = v.extra
+            take = None
+            for t, val in st.pc:
+                if t == c:
+                    take = val
+                elif isinstance(t, Term) and t.op == "not" and t.args and t.args[0] == c:
+                    take = not val
+                elif isinstance(c, Term) and c.op == "not" and c.args and c.args[0] == t:
+                    take = not val
+            if take is None:
+                break
+            v = va if take else vb
+            n += 1
+        return v
+
     def lookup(self, name, st, node=None):
         fr = self.cur()
         env = st.frames[-1]
@@ -502,7 +522,7 @@ class Interp:
             if v.kind == "maybe":
                 self.event("maybe-unbound", node, st, name=name, value=v)
                 return v.items[0] if v.items else vunk("maybe:" + name)
-            return v
+            return self.refine(v, st)
         for idx in reversed(fr.closure or ()):
             if idx < len(st.frames) and name in st.frames[idx]:
                 v = st.frames[idx][name]
@@ -965,7 +985,7 @@ class Interp:
         fr = self.cur()
         if getattr(fr, "loop_ctl", None):
             fr.loop_ctl[-1].append(("break", st.copy()))
-        self.event("break", s, st)
+        self.event("break", s, st, state=st.copy(), probing=getattr(self, "_probing", 0))
         return False
 
     def x_Continue(self, s, st):
